@@ -70,11 +70,24 @@ func VerifC07RowBatch() {
 	}
 	enc, err := FastMarshalMultiRows(nil, rows)
 	verifrt.Assert(err == nil, "row batch encode failed")
-	back, _, _, _, _, err := FastUnmarshalMultiRows(enc, nil, nil, nil, nil, nil)
+	// the decoder is handed re-used rows (WAL replay and the points decoder only truncate their row
+	// slice): whatever the previous batch left in them must not show up in this one
+	var reused []Row
+	if verifrt.Bool("reusedRows") {
+		reused = make([]Row, 2)
+		for i := range reused {
+			reused[i] = Row{Name: "old", Timestamp: 7, ShardKey: []byte("sk"), Tags: PointTags{{Key: "ok", Value: "ov"}},
+				Fields: Fields{{Key: "of", Type: Field_Type_Int, NumValue: 1}}, IndexOptions: IndexOptions{{Oid: 3, IndexList: []uint16{1}}}}
+		}
+		reused = reused[:0]
+		verifrt.Reach("reused")
+	}
+	back, _, _, _, _, err := FastUnmarshalMultiRows(enc, reused, nil, nil, nil, nil)
 	verifrt.Assert(err == nil, "row batch decode failed")
 	verifrt.Assert(len(back) == n, "row count differs after the round trip")
 	for i := range rows {
 		verifrt.Assert(verifC07SameRow(&back[i], &rows[i]), "row differs after the round trip")
+		verifrt.Assert(len(back[i].IndexOptions) == 0, "a decoded row carries index options that were not encoded")
 	}
 	// a strict prefix (at least the 5-byte batch header, which the framing layer always delivers whole)
 	cut := 5 + verifrt.Choose("cut", len(enc)-5)
